@@ -282,6 +282,46 @@ def _run_map(desc):
                                                                            "max_diff_crystal": float(np.abs(got_c - want_c).max())})
             sh.evaluations += 1
             sh.nontrivial += 1
+    # several phases whose integer keys are NOT 0..n-1 in insertion order (out of order, with a gap): every voxel is measured against
+    # the cell of ITS phase key
+    for keys in ((1, 0), (0, 3), (2, 5, 1), (0, 1, 2)):
+        cells_k = {k_: CELLS[(ci + q) % len(CELLS)] for q, k_ in enumerate(keys)}
+        phases = {}
+        for k_ in keys:                                   # insertion order = order of `keys`
+            phases[k_] = ucm.unitcell(cells_k[k_], "P")
+        nvox = 2 * len(keys)
+        shape = (1, 1, nvox)
+        pid = np.array([keys[q % len(keys)] for q in range(nvox)]).reshape(shape)
+        Sx = stretches(tier)[7]
+        ub, ws_, wc_ = [], [], []
+        for q in range(nvox):
+            cell_q = cells_k[int(pid[0, 0, q])]
+            u_ = np.dot(np.linalg.inv(O.cell_to_B(cell_q)), np.dot(R[2 + q % 3], Sx).T)
+            g_ = gm.grain(u_)
+            ub.append(u_); ws_.append(g_.eps_sample_matrix(cell_q, 0.5)); wc_.append(g_.eps_grain_matrix(cell_q, 0.5))
+        ub = np.array(ub).reshape(shape + (3, 3))
+        with contextlib.redirect_stdout(io.StringIO()):
+            Tm = tm.TensorMap(maps={"UBI": ub.copy(), "phase_ids": pid.copy()}, phases=phases)
+            ec = Tm.eps_crystal[0, 0]
+            Tm2 = tm.TensorMap(maps={"UBI": ub.copy(), "phase_ids": pid.copy()}, phases=phases)
+            es = Tm2.eps_sample[0, 0]
+        c4 = {"kind": "map", "cell": cell, "shape": list(shape), "seed": seed_of(), "phase_keys_in_insertion_order": list(keys)}
+        dc, ds_ = np.abs(ec - np.array(wc_)), np.abs(es - np.array(ws_))
+        if np.isnan(dc).any() or np.isnan(ds_).any() or dc.max() > 1e-10 or ds_.max() > 1e-10:
+            sh.violation("TensorMap.eps:voxel-not-measured-against-the-cell-of-its-phase", c4,
+                         {"max_diff_crystal": float(np.nanmax(dc)), "max_diff_sample": float(np.nanmax(ds_)), "any_nan": bool(np.isnan(dc).any())})
+        sh.evaluations += nvox
+        sh.nontrivial += nvox
+    # a grain built from an array the caller goes on using: the grain owns its matrix (strain unchanged afterwards)
+    work = np.array(ubis[7], float)
+    g_own = gm.grain(work)
+    before = g_own.eps_grain_matrix(cell, 0.5).copy()
+    work *= 1.07
+    g_own2 = gm.grain(np.eye(3) * 4.0)
+    g_own2.set_ubi(work)
+    work[:] = np.eye(3) * 9.0
+    if np.abs(g_own.eps_grain_matrix(cell, 0.5) - before).max() > 0 or np.abs(g_own.ubi - ubis[7]).max() > 0 or np.abs(g_own2.ubi - ubis[7] * 1.07).max() > 1e-15:
+        sh.violation("grain:matrix-shared-with-the-caller's-array", {"kind": "map", "cell": cell, "shape": [1], "seed": seed_of(), "history": "grain(a); a *= 1.07; set_ubi(a); a[:] = ..."}, {})
     sh.sample(case, limit=1)
     return sh
 
